@@ -252,6 +252,9 @@ func (u *Universe) BuildAlphabet(winFrom, winUntil int64) {
 	add(u.MkSigned("dR", "deactivate", u.R[0], "", "", nil, SignedOpts{SignedKey: u.X[0], SigningKey: u.X[0]}))
 	add(u.MkSigned("rR", "recover", u.R[0], cm(u.R[1]), cm(u.U[1]), d1, SignedOpts{SignedKey: u.X[1], SigningKey: u.X[1]}))
 	add(u.MkSigned("uND", "update", u.U[0], "", cm(u.U[1]), k2, SignedOpts{OmitDelta: true}))
+	add(u.MkSigned("rSB", "recover", u.R[0], cm(u.R[2]), cm(u.U[2]), d1, SignedOpts{SigningKey: u.X[1], DeltaStatus: ref.DeltaMismatch}))
+	add(u.MkSigned("rTI", "recover", u.R[0], cm(u.R[2]), cm(u.U[2]), nil, SignedOpts{Tamper: true, DeltaStatus: ref.DeltaInvalid}))
+	add(u.MkSigned("uSF", "update", u.U[0], "", cm(u.U[1]), nil, SignedOpts{SigningKey: u.X[0], DeltaStatus: ref.DeltaFails}))
 	add(u.MkSigned("dO", "deactivate", u.R[0], "", "", nil, SignedOpts{SignedSuffix: "EiOtherSuffixxxxxxxxxxxxxxxxxxxxxxxxxxxxxxxxxxx"}))
 }
 
@@ -555,6 +558,16 @@ func (c *Chain) Forgeries(tag string) []*ref.Op {
 	add(c.U.MkSigned(lb("d-deact-reveal-mismatch"), "deactivate", c.CurR, "", "", nil, SignedOpts{SignedKey: x, SigningKey: x}))
 	// deactivate whose signed suffix belongs to another DID
 	add(c.U.MkSigned(lb("d-deact-other-suffix"), "deactivate", c.CurR, "", "", nil, SignedOpts{SignedSuffix: "EiBotherDidSuffixxxxxxxxxxxxxxxxxxxxxxxxxxxxxxx"}))
+	// two defects at once: wrong signer / tampered signature together with an unusable delta (the signature must be checked
+	// before any state derived from the operation is returned)
+	add(c.U.MkSigned(lb("bc-rec-wrongsigner-delta-mismatch"), "recover", c.CurR, y.Commitment(code), x.Commitment(code), k2, SignedOpts{SigningKey: x, DeltaStatus: ref.DeltaMismatch}))
+	add(c.U.MkSigned(lb("bc-rec-tampered-delta-mismatch"), "recover", c.CurR, y.Commitment(code), x.Commitment(code), k2, SignedOpts{Tamper: true, DeltaStatus: ref.DeltaMismatch}))
+	add(c.U.MkSigned(lb("bc-rec-wrongsigner-delta-invalid"), "recover", c.CurR, y.Commitment(code), x.Commitment(code), nil, SignedOpts{SigningKey: x, DeltaStatus: ref.DeltaInvalid}))
+	add(c.U.MkSigned(lb("bc-rec-tampered-delta-fails"), "recover", c.CurR, y.Commitment(code), x.Commitment(code), nil, SignedOpts{Tamper: true, DeltaStatus: ref.DeltaFails}))
+	add(c.U.MkSigned(lb("bc-upd-wrongsigner-delta-mismatch"), "update", c.CurU, "", y.Commitment(code), k2, SignedOpts{SigningKey: x, DeltaStatus: ref.DeltaMismatch}))
+	add(c.U.MkSigned(lb("bc-upd-tampered-delta-fails"), "update", c.CurU, "", y.Commitment(code), nil, SignedOpts{Tamper: true, DeltaStatus: ref.DeltaFails}))
+	add(c.U.MkSigned(lb("bc-rec-wrongsigner-window"), "recover", c.CurR, y.Commitment(code), x.Commitment(code), k2, SignedOpts{SigningKey: x, From: 1, Until: 2}))
+	add(c.U.MkSigned(lb("bc-upd-wrongsigner-window"), "update", c.CurU, "", y.Commitment(code), k2, SignedOpts{SigningKey: x, From: 1, Until: 2}))
 	// update whose delta does not match the signed delta hash (tampered delta)
 	add(c.U.MkSigned(lb("c-upd-delta-swapped"), "update", c.CurU, "", y.Commitment(code), k2, SignedOpts{DeltaStatus: ref.DeltaMismatch}))
 	return out
